@@ -260,6 +260,7 @@ func cmdGuards(args []string) int {
 		{"one_vote_type_new_view", func(e *guardEnv) { e.vds[0].ht = protocol.LEAN_HELIX_NEW_VIEW }},
 		{"one_vote_sig_forged", func(e *guardEnv) { e.vds[0].mode = "forged" }},
 		{"one_vote_by_outsider", func(e *guardEnv) { e.vds[0].sender = e.cl.ids[e.cl.nMembers] }},
+		{"one_vote_forged_in_the_name_of_the_receiver", func(e *guardEnv) { e.vds[0].sender, e.vds[0].mode = e.n.id, "forged" }},
 		{"all_votes_by_outsiders_as_many_as_members", func(e *guardEnv) { // N distinct validly signed votes, none from the committee
 			e.vds = nil
 			for i := 0; i < e.cl.nMembers; i++ {
